@@ -24,7 +24,10 @@ RULE = ("random molecule G (gens.rand_mol, 1-8 atoms, rings, orders 1/1.5/2/3) a
         "G and H re-assigned independently (contiguous/offset/sparse/negative/shuffled insertion order); second stream: "
         "ITS.from_smiles on RDKit-written mapped reaction SMILES of C/N/O molecules (RDKit supplies the ids); every get_its "
         "case is also run under a second independent renaming/reordering of G and H and the two implementation outputs are "
-        "compared with equiv_mod_idxb (check 'invariant'). "
+        "compared with equiv_mod_idxb (check 'invariant'); 60% of the from_smiles cases are histories: the string is read, the "
+        "first ITS object is edited in place (remove node/edge, rename symbol, relabel edge, add node, change aam, drop "
+        "idx_map) or used (prune, split, to_smiles), the string is read AGAIN and the SECOND result is compared with the "
+        "model/spec and must not share its graph or any attribute dict with the first. "
         "non-trivial = ITS with >= 2 nodes and >= 1 edge; distinct = distinct (G, H) incl. ids, orders and maps")
 TRUSTED = ["model of the attribute dict as a record of the five keys FGUtils uses",
            "RDKit SMILES parser (fgutils.rdkit.smiles_to_graph) in the from_smiles stream: its output graphs are the model's input"]
@@ -195,12 +198,73 @@ def make_smiles_case(rng, full=False):
         x = rng.choice([g, h])
         x.nodes[rng.choice(list(x.nodes))].pop("aam")
     smiles = graph_to_smiles(g) + ">>" + graph_to_smiles(h)
-    return smiles_case(smiles)
+    c = smiles_case(smiles)
+    # the graphs the strings were written from (used by C10's SMILES leg as an oracle independent of the reader)
+    c["srcG"], c["srcH"] = g, h
+    return c
 
 
 def smiles_case(smiles):
     g, h = smiles_to_graph(smiles)
     return {"op": "from_smiles", "smiles": smiles, "G": g, "H": h, "policy": "smiles", "scheme": "rdkit/rdkit"}
+
+
+HIST_KINDS = ["remove_node", "rename_symbol", "remove_edge", "relabel_edge", "add_node", "change_aam",
+              "drop_idx_map", "prune", "split", "to_smiles"]
+
+
+def apply_hist(obj, hist):
+    """Edit an ITS object (mostly its .graph, in place) the way a caller legitimately may."""
+    import random
+    rng = random.Random(hist["seed"])
+    g = obj.graph
+    kind = hist["kind"]
+    ns = list(g.nodes)
+    es = list(g.edges)
+    if kind == "remove_node" and ns:
+        g.remove_node(rng.choice(ns))
+    elif kind == "rename_symbol" and ns:
+        g.nodes[rng.choice(ns)]["symbol"] = "Xx"
+    elif kind == "remove_edge" and es:
+        g.remove_edge(*rng.choice(es))
+    elif kind == "relabel_edge" and es:
+        u, v = rng.choice(es)
+        g[u][v]["bond"] = (9, 9)
+    elif kind == "add_node":
+        nid = (max(ns) + 1) if ns else 1
+        g.add_node(nid, symbol="H", aam=nid)
+        if ns:
+            g.add_edge(nid, rng.choice(ns), bond=(1, 1))
+    elif kind == "change_aam" and ns:
+        g.nodes[rng.choice(ns)]["aam"] = 99
+    elif kind == "drop_idx_map" and ns:
+        g.nodes[rng.choice(ns)].pop("idx_map", None)
+    elif kind == "prune":
+        try:
+            obj.prune(radius=rng.choice([0, 1]), insert_hydrogens=rng.random() < 0.5)
+        except Exception:   # noqa
+            pass
+    elif kind == "split":
+        obj.split()
+    elif kind == "to_smiles":
+        try:
+            obj.to_smiles()
+        except Exception:   # noqa
+            pass
+
+
+def shares_state(a, b):
+    """Two graphs that must be independent objects: no shared graph, node-attribute or edge-attribute dict."""
+    if a is b:
+        return True
+    for n in a._node:
+        if n in b._node and a._node[n] is b._node[n]:
+            return True
+    for u in a._adj:
+        for v, dd in a._adj[u].items():
+            if u in b._adj and v in b._adj[u] and b._adj[u][v] is dd:
+                return True
+    return False
 
 
 def generate(seed, tier, ncases=None):
@@ -209,7 +273,12 @@ def generate(seed, tier, ncases=None):
         rng = lib.rng_for(seed, ID, i)
         if rng.random() < 0.12:
             try:
-                yield make_smiles_case(rng)
+                c = make_smiles_case(rng)
+                if rng.random() < 0.6:
+                    # history: read the string, edit the first result in place, read the string AGAIN;
+                    # the second result is the one compared with the model / specification
+                    c["hist"] = {"kind": rng.choice(HIST_KINDS), "seed": rng.randrange(10 ** 6)}
+                yield c
                 continue
             except Exception:
                 pass
@@ -243,7 +312,15 @@ def corpus():
 def run_impl(c):
     g, h = gens.copy_exact(c["G"]), gens.copy_exact(c["H"])
     try:
-        if c["op"] == "from_smiles":
+        shared = False
+        if c["op"] == "from_smiles" and "hist" in c:
+            first = ITS.from_smiles(c["smiles"])
+            g_first = first.graph
+            apply_hist(first, c["hist"])
+            second = ITS.from_smiles(c["smiles"])
+            out = second.graph
+            shared = second is first or shares_state(out, g_first) or shares_state(out, first.graph)
+        elif c["op"] == "from_smiles":
             out = ITS.from_smiles(c["smiles"]).graph
         else:
             out = get_its(g, h)
@@ -255,7 +332,7 @@ def run_impl(c):
             out2 = get_its(gens.copy_exact(c["G2"]), gens.copy_exact(c["H2"]))
         except Exception as e:
             return (type(e).__name__, str(e))
-    return ("ok", out, gens.graphs_identical(g, c["G"]) and gens.graphs_identical(h, c["H"]), out2)
+    return ("ok", out, gens.graphs_identical(g, c["G"]) and gens.graphs_identical(h, c["H"]), out2, shared)
 
 
 def check_domain(g):
@@ -298,6 +375,8 @@ def describe(c):
          "G": ct.graph_py(c["G"]), "H": ct.graph_py(c["H"])}
     if c["op"] == "from_smiles":
         d["smiles"] = c["smiles"]
+    if "hist" in c:
+        d["hist"] = c["hist"]
     for k in ("G2", "H2"):
         if k in c:
             d[k] = ct.graph_py(c[k])
@@ -309,6 +388,8 @@ def from_json(d):
          "G": ct.graph_from_py(d["G"]), "H": ct.graph_from_py(d["H"])}
     if d["op"] == "from_smiles":
         c["smiles"] = d["smiles"]
+    if "hist" in d:
+        c["hist"] = d["hist"]
     for k in ("G2", "H2"):
         if k in d:
             c[k] = ct.graph_from_py(d[k])
@@ -320,7 +401,8 @@ def describe_out(out):
 
 
 def key(c):
-    return (c["op"], ct.graph_canon(c["G"]), ct.graph_canon(c["H"]))
+    hist = (c["hist"]["kind"], c["hist"]["seed"]) if "hist" in c else None
+    return (c["op"], hist, ct.graph_canon(c["G"]), ct.graph_canon(c["H"]))
 
 
 def nontrivial(c, out):
@@ -329,6 +411,8 @@ def nontrivial(c, out):
 
 def classes(c, out):
     yield "op=" + c["op"]
+    if "hist" in c:
+        yield "history=" + c["hist"]["kind"]
     yield "policy=" + c["policy"]
     yield "ids=" + c["scheme"]
     yield "result=" + out[0]
@@ -356,4 +440,7 @@ def py_invariants(c, out):
         msgs.append("get_its raised %s: %s" % (out[0], out[1]))
     elif not out[2]:
         msgs.append("get_its mutated one of its arguments")
+    elif out[4]:
+        msgs.append("ITS.from_smiles returned an object sharing state with an earlier result for the same string "
+                    "(history: %s)" % c["hist"]["kind"])
     return msgs
